@@ -76,6 +76,7 @@ class Relation:
     coq_case_type = None  # e.g. "kcase"
     coq_model = None  # optional: function case -> printable model output
     coq_imports = []  # further HV modules the case literals need
+    coq_lib = "HV"  # "HVG" for relations evaluated against the module regenerated from the source
     max_cases_per_shard = 400
     max_chars_per_shard = 90_000
     budget = {"quick": 1000, "thorough": 20000}
@@ -320,26 +321,30 @@ def build(modules, timeout=1500):
             fcntl.flock(lock, fcntl.LOCK_UN)
 
 
-def check_property_file(module, allowed_axioms, timeout=900):
-    """(Re)compile the Property file, capturing Print Assumptions output.
+def compile_with_assumptions(src_path, allowed_axioms, extra_q=(), timeout=900, workdir=None, keep=False):
+    """Compile one .v file (in a scratch copy unless workdir is given), capturing Print Assumptions.
 
-    Returns dict(ok, theorems=[{name, closed, axioms}], log)."""
-    src_path = os.path.join(THEORIES, module + ".v")
+    Returns dict(ok, theorems=[{name, closed, axioms, ok}], unprinted, log)."""
+    module = os.path.splitext(os.path.basename(src_path))[0]
     src = strip_coq_comments(open(src_path).read())
     names = re.findall(r"Print\s+Assumptions\s+([A-Za-z0-9_'.]+)\s*\.", src)
-    thm_names = re.findall(r"\b(?:Theorem|Lemma|Corollary|Example)\s+([A-Za-z0-9_']+)", src)
-    work = tempfile.mkdtemp(prefix="hv_prop_")
+    thm_names = re.findall(r"\b(?:Theorem|Corollary)\s+([A-Za-z0-9_']+)", src)
+    if workdir is None:
+        thm_names = re.findall(r"\b(?:Theorem|Lemma|Corollary|Example)\s+([A-Za-z0-9_']+)", src)
+    work = workdir or tempfile.mkdtemp(prefix="hv_prop_")
     try:
         dst = os.path.join(work, module + ".v")
-        shutil.copy(src_path, dst)
+        if os.path.abspath(dst) != os.path.abspath(src_path):
+            shutil.copy(src_path, dst)
         p = subprocess.run(
-            ["timeout", str(timeout), "coqc", "-Q", THEORIES, "HV", dst],
+            ["timeout", str(timeout), "coqc", "-Q", THEORIES, "HV"] + list(extra_q) + [dst],
             capture_output=True,
             text=True,
             cwd=work,
         )
     finally:
-        shutil.rmtree(work, ignore_errors=True)
+        if workdir is None and not keep:
+            shutil.rmtree(work, ignore_errors=True)
     out = p.stdout
     ok = p.returncode == 0
     # split the output into one block per Print Assumptions, in order
@@ -371,10 +376,135 @@ def check_property_file(module, allowed_axioms, timeout=900):
     }
 
 
-SHARD_HEADER = """From HV Require Import Prelude {imports} {mod}.
+def check_property_file(module, allowed_axioms, timeout=900):
+    """(Re)compile the Property file, capturing Print Assumptions output."""
+    return compile_with_assumptions(os.path.join(THEORIES, module + ".v"), allowed_axioms, timeout=timeout)
+
+
+# ----------------------------------------------------------------------------
+# translation validation: model regenerated from the current source (harness/pytrans.py)
+
+TRANSLATED = os.path.join(COQDIR, "translated")
+EXTRA_Q = []  # set by run_check once the generated module is built: ["-Q", dir, "HVG"]
+
+
+def _forbidden_in(text, label):
+    src = strip_coq_comments(text)
+    out = [f"{label}: forbidden `{m.group(0)}`" for m in FORBIDDEN.finditer(src)]
+    depth = 0
+    for sent in re.split(r"\.\s", src):
+        st = sent.strip()
+        if re.match(r"^Section\b", st):
+            depth += 1
+        elif re.match(r"^End\b", st):
+            depth = max(0, depth - 1)
+        elif re.match(r"^(Variables?|Hypothes[ie]s|Context)\b", st) and depth == 0:
+            out.append(f"{label}: `{st[:40]}` outside a Section")
+    return out
+
+
+def translation_stage(mod):
+    """Regenerate the MiniPy model of the selected functions from $HAPTOOLS_REPO's current source,
+    compile it and the translation-validation proofs (coq/translated/*.v) against it.
+
+    Returns None when the property has no TRANSLATION, else
+    dict(ok, qdir, theorems, problems, generated_sha, cached)."""
+    import fcntl
+    from . import pytrans
+
+    tr = getattr(mod, "TRANSLATION", None)
+    if not tr:
+        return None
+    gen_mod = tr["spec"]["module"]
+    proofs = list(tr["proofs"])
+    res = {"ok": False, "qdir": None, "theorems": [], "problems": [], "generated_sha": None, "cached": False,
+           "functions": [f"{a}:{b}" for a, b in tr["spec"]["functions"]]}
+    try:
+        text = pytrans.translate(tr["spec"], REPO)
+    except pytrans.Untranslatable as e:
+        res["problems"].append(f"translator: the current source is outside the translated subset: {e}")
+        return res
+    except (OSError, SyntaxError) as e:
+        res["problems"].append(f"translator: cannot read the source: {e}")
+        return res
+    res["generated_sha"] = hashlib.sha256(text.encode()).hexdigest()[:16]
+    h = hashlib.sha256()
+    h.update(text.encode())
+    for pf in list(tr.get("models", [])) + proofs:
+        h.update(open(os.path.join(TRANSLATED, pf + ".v"), "rb").read())
+    for fn in sorted(os.listdir(THEORIES)):
+        if fn.endswith(".v"):
+            h.update(open(os.path.join(THEORIES, fn), "rb").read())
+    key = h.hexdigest()[:20]
+    qdir = os.path.join(VERIF, ".work", "tv", key)
+    os.makedirs(qdir, exist_ok=True)
+    with open(os.path.join(qdir, ".lock"), "w") as lock:
+        fcntl.flock(lock, fcntl.LOCK_EX)
+        try:
+            rj = os.path.join(qdir, "result.json")
+            if os.path.exists(rj):
+                cached = json.load(open(rj))
+                cached["cached"] = True
+                cached["qdir"] = qdir if cached.get("built") else None
+                return cached
+            problems = _forbidden_in(text, gen_mod + ".v (generated)")
+            for pf in proofs:
+                problems += _forbidden_in(open(os.path.join(TRANSLATED, pf + ".v")).read(), pf + ".v")
+            with open(os.path.join(qdir, gen_mod + ".v"), "w") as f:
+                f.write(text)
+            q = ["-Q", qdir, "HVG"]
+            p = subprocess.run(["timeout", "600", "coqc", "-Q", THEORIES, "HV"] + q + [gen_mod + ".v"],
+                               capture_output=True, text=True, cwd=qdir)
+            built = p.returncode == 0
+            if not built:
+                problems.append("generated module does not compile: " + p.stderr[-800:])
+            theorems = []
+            allowed = set(getattr(mod, "ALLOWED_AXIOMS", []))
+            for mf in (tr.get("models", []) if built else []):
+                shutil.copy(os.path.join(TRANSLATED, mf + ".v"), os.path.join(qdir, mf + ".v"))
+                problems += _forbidden_in(open(os.path.join(qdir, mf + ".v")).read(), mf + ".v")
+                p = subprocess.run(["timeout", "600", "coqc", "-Q", THEORIES, "HV"] + q + [mf + ".v"],
+                                   capture_output=True, text=True, cwd=qdir)
+                if p.returncode:
+                    built = False
+                    problems.append(f"{mf}.v does not compile against the regenerated module: " + p.stderr[-800:])
+            runnable = built
+            if built:
+                for pf in proofs:
+                    shutil.copy(os.path.join(TRANSLATED, pf + ".v"), os.path.join(qdir, pf + ".v"))
+                    r = compile_with_assumptions(os.path.join(qdir, pf + ".v"), allowed, extra_q=q, workdir=qdir)
+                    if not r["ok"]:
+                        problems.append(
+                            f"translation validation {pf}: the model regenerated from the current source is no longer "
+                            f"proved equal to the hand-written model: " + (r["log"] or "")[-1200:]
+                            + " ".join(f"{t['name']}:{t['axioms']}" for t in r["theorems"] if not t["ok"])
+                            + (" without Print Assumptions: " + ",".join(r["unprinted"]) if r["unprinted"] else ""))
+                        # the theorems of a file that does not compile are all undischarged
+                        src = strip_coq_comments(open(os.path.join(qdir, pf + ".v")).read())
+                        names = re.findall(r"Print\s+Assumptions\s+([A-Za-z0-9_'.]+)\s*\.", src)
+                        got = {t["name"]: t for t in r["theorems"]}
+                        for nm in names:
+                            t = got.get(nm, {"name": nm, "closed": False, "axioms": ["<not checked>"], "ok": False})
+                            if r["log"]:
+                                t = dict(t, ok=False)
+                            theorems.append(t)
+                        built = False if r["log"] else built
+                    else:
+                        theorems += r["theorems"]
+            out = dict(res, ok=not problems, theorems=theorems, problems=problems, built=runnable)
+            with open(rj, "w") as f:
+                json.dump(out, f)
+            out["qdir"] = qdir if runnable else None
+            return out
+        finally:
+            fcntl.flock(lock, fcntl.LOCK_UN)
+
+
+SHARD_HEADER = """From HV Require Import Prelude {imports}.
+From {lib} Require Import {mod}.
 Open Scope Z_scope.
 {preamble}
-Definition cases : list {mod}.{ctype} := [
+Definition cases : list {ctype} := [
 {body}
 ].
 Definition result := Eval vm_compute in (bad_indices {mod}.{chk} cases).
@@ -407,7 +537,7 @@ def _run_shard(args):
     path, timeout = args
     t0 = time.time()
     p = subprocess.run(
-        ["timeout", str(timeout), "coqc", "-Q", THEORIES, "HV", path],
+        ["timeout", str(timeout), "coqc", "-Q", THEORIES, "HV"] + list(EXTRA_Q) + [path],
         capture_output=True,
         text=True,
         cwd=os.path.dirname(path),
@@ -441,8 +571,9 @@ def eval_cases(rel, terms, workdir, tag="s", timeout=900):
             f.write(
                 SHARD_HEADER.format(
                     mod=rel.coq_module,
+                    lib=rel.coq_lib,
                     imports=" ".join(rel.coq_imports),
-                    ctype=rel.coq_case_type,
+                    ctype=rel.coq_case_type if "." in rel.coq_case_type else f"{rel.coq_module}.{rel.coq_case_type}",
                     chk=rel.coq_check,
                     preamble=rel.preamble(),
                     body=";\n".join(sh),
@@ -474,12 +605,13 @@ def eval_model_output(rel, term, workdir):
     path = os.path.join(workdir, f"model_{rel.coq_module}_{rel.name}.v")
     with open(path, "w") as f:
         f.write(
-            f"From HV Require Import Prelude {' '.join(rel.coq_imports)} {rel.coq_module}.\nOpen Scope Z_scope.\n{rel.preamble()}\n"
-            f"Definition c : {rel.coq_module}.{rel.coq_case_type} := {term}.\n"
+            f"From HV Require Import Prelude {' '.join(rel.coq_imports)}.\nFrom {rel.coq_lib} Require Import {rel.coq_module}.\n"
+            f"Open Scope Z_scope.\n{rel.preamble()}\n"
+            f"Definition c : {rel.coq_case_type if '.' in rel.coq_case_type else rel.coq_module + '.' + rel.coq_case_type} := {term}.\n"
             f"Eval vm_compute in ({rel.coq_module}.{rel.coq_model} c).\n"
         )
     p = subprocess.run(
-        ["timeout", "300", "coqc", "-Q", THEORIES, "HV", path], capture_output=True, text=True, cwd=workdir
+        ["timeout", "300", "coqc", "-Q", THEORIES, "HV"] + list(EXTRA_Q) + [path], capture_output=True, text=True, cwd=workdir
     )
     return (p.stdout if p.returncode == 0 else p.stderr)[-4000:].strip()
 
@@ -723,6 +855,15 @@ def run_check(mod, tier, seed, only_relations=None):
                     + " ".join(f"{t['name']}:{t['axioms']}" for t in pinfo["theorems"] if not t["ok"])
                     + (" theorems without Print Assumptions: " + ",".join(pinfo["unprinted"]) if pinfo["unprinted"] else "")
                 )
+        # ---- translation validation (model regenerated from the current source)
+        tv = translation_stage(mod) if ok else None
+        if tv is not None:
+            cov["translation"] = {k: tv.get(k) for k in ("ok", "functions", "generated_sha", "cached", "problems")}
+            if tv.get("qdir"):
+                EXTRA_Q[:] = ["-Q", tv["qdir"], "HVG"]
+            pinfo["theorems"] = list(pinfo["theorems"]) + [dict(t, name="translated:" + t["name"]) for t in tv["theorems"]]
+            if not tv["ok"]:
+                gate_problems += tv["problems"] or ["translation validation failed"]
         gate_red = bool(gate_problems)
         n_thm = len(pinfo["theorems"])
         n_thm_ok = sum(1 for t in pinfo["theorems"] if t["ok"])
@@ -745,6 +886,9 @@ def run_check(mod, tier, seed, only_relations=None):
         broken_rel = []  # (rel, inp, obs, term)
         if not ok:
             rels = []  # cannot evaluate cases without the compiled development
+        if tv is not None and not tv.get("qdir"):
+            # relations evaluated against the regenerated module cannot run without it
+            rels = [r for r in rels if r.coq_lib != "HVG"]
         for rel in rels:
             rng = np.random.default_rng([seed, int(hashlib.sha256(rel.name.encode()).hexdigest()[:8], 16)])
             corpus = load_corpus(prop, rel)
@@ -844,6 +988,29 @@ def run_check(mod, tier, seed, only_relations=None):
                     )
                     violations.append((path, " no-failing-input-found"))
             if gate_red and not found and not broken_rel:
+                # a proof obligation (or the translation of the current source) no longer checks although
+                # model and implementation still agree on the sampled cases: search every relation harder
+                # for an input on which the property fails before reporting that none was found
+                for rel in rels:
+                    rng = np.random.default_rng([seed + 1, 11])
+                    extra = list(rel.generate(rng, rel.budget.get("thorough", rel.budget["quick"]) // 2, "thorough"))
+                    extra += list(rel.exhaustive("thorough"))
+                    eobs, eterms, ea, eh = _evaluate(rel, extra, workdir, "gesc")
+                    total_eval += len(extra)
+                    rel_stats[rel.name]["escalation_cases"] = len(extra)
+                    real = [i for i in sorted(eh) if not match_known(prop, rel, rel.signature(extra[i], eobs[i]))]
+                    if real:
+                        i = real[0]
+                        small = shrink_case(rel, extra[i], workdir, "holds")
+                        so, st, sa, sh = _evaluate(rel, [small], workdir, "min")
+                        if not sh:
+                            small, so, st = extra[i], [eobs[i]], [eterms[i]]
+                        path = write_replay(prop, rel, small, so[0], st[0], "property-fails",
+                                            "found by escalated search after a proof obligation broke", workdir)
+                        violations.append((path, ""))
+                        found = True
+                        break
+            if gate_red and not found and not broken_rel:
                 os.makedirs(os.path.join(VERIF, "replay"), exist_ok=True)
                 path = os.path.join(VERIF, "replay", f"{prop}_proof_gate.json")
                 with open(path, "w") as f:
@@ -860,6 +1027,12 @@ def run_check(mod, tier, seed, only_relations=None):
                                f"case shards: coqc + vm_compute of HV.<module>.<check> over generated cases",
                 "trusted_base": list(getattr(mod, "TRUSTED", [])) + [
                     "Coq 8.16.1 kernel + vm_compute (no native_compute)",
+                    ("hand-written Gallina model; for the functions listed in coverage.translation the model is also "
+                     "regenerated from the current source on every run (harness/pytrans.py -> MiniPy syntax, "
+                     "interpreted by HV.MiniPy) and proved equal to the hand-written one (coq/translated); trusted "
+                     "there: the translator and the interpreter's reading of Python, both exercised by the tv_* "
+                     "relation; everything else is tied to the code by the correspondence run below")
+                    if tv is not None else
                     "hand-written Gallina model tied to the code only by the correspondence run below",
                     "harness: generators, Python->Gallina literal printer, recorders (harness/*.py)",
                 ],
